@@ -1,5 +1,6 @@
 pub mod addrsort;
 pub mod cli;
+pub mod e2e;
 pub mod eyeballs;
 pub mod lab;
 pub mod report;
